@@ -199,6 +199,12 @@ def family(t, sd):
              'min x\ns.t.\n    !(p && q) || r\n    p -> q -> r\n    p <-> q -> r\n    x >= p + q\ndefine\n    p, q, r as Boolean\n    x as Real(0, 3)',
              'max x\nsubject to\n    c1: x <= k * 2\n    /* comment */ x >= k - (1 - 2) // trailing\nwhere\n    let k = 1.5\ndefine\n    x as NonNegativeReal(0, 9)',
              'solve\ns.t.\n    abs{ a - (b - 1) } <= 2\n    min{ a, b - (a - 1) } >= 0\ndefine\n    a, b as IntegerRange(-3, 3)']
+    # numeric literals in every position a number can stand: many decimals, tiny, large, near-integers
+    lits = ['1.23456789', '0.0000004', '0.99999999', '123456.789012', '3.000000001', '0.1', '1000000', '2.5', '0.30000000000000004', '12345678.5']
+    for i, a in enumerate(lits):
+        b = lits[(i + 3) % len(lits)]
+        extra.append('min %s * x + y\ns.t.\n    %s * x + y >= %s\n    x - y <= k\nwhere\n    let k = %s\ndefine\n    x as Real(0, %s)\n    y as NonNegativeReal(0, 50)' % (a, b, a, b, '%s' % (float(a) + 100)))
+        extra.append('max x\ns.t.\n    c%d: x / %s <= %s\n    abs{ x - %s } <= min{ %s, 9 }\ndefine\n    x as Real(-%s, 1000000)' % (i, a, b, a, b, b))
     for s in extra:
         items.append({'model': None, 'src': s, 'fam': 'hand'})
     # programs found in the repository's own tests / examples / docs: iterations, blocks, arrays, graphs,
